@@ -227,7 +227,7 @@ def r25(facts, res):
         l0 = op_local(t['args'][0])
         if l0 is None or not b.lty(l0).startswith('&mut std::collections::hash::map::HashMap<cfgrammar::Symbol<'):
             continue
-        r, projs, via = b.op_root(t['args'][0], through=Body.THROUGH + ('index_mut',))
+        r, projs, via = b.op_root(t['args'][0], through=Body.THROUGH + ('index_mut',), stop_named=False)
         if r in ets:
             sites.append((bb, cname(t)))
     res.floor(R, 'edge-recording sites while processing a state', len(sites), 3)
